@@ -12,7 +12,7 @@ RULE = (
     "Hypothesis-generated pairs of 1-3-D label arrays (free voxel labelling and boxes, sides <=16/8/5; "
     "run-length encoded 1-D arrays of up to 140k voxels; 2-D<=12x12 / 3-D<=6^3 for clDice) x dtype in "
     "bool/uint8-64/int8-64/float32/64 x reference label x prediction label or list of 1-4 labels (present, "
-    "absent, repeated) or no selection on binary masks. Oracle: set formulas on coordinate sets. A case is "
+    "absent, repeated, or not representable in the array dtype: 256 in uint8, 2^32+1; negative labels are outside the documented domain) or no selection on binary masks. Oracle: set formulas on coordinate sets. A case is "
     "non-trivial when both selected masks are non-empty and neither equal nor disjoint; distinct = distinct "
     "canonical JSON of the case."
 )
@@ -31,12 +31,14 @@ DTYPES = ["uint8", "uint16", "uint32", "uint64", "int8", "int16", "int32", "int6
 @st.composite
 def sel_case(draw):
     pred, ref = draw(gen.pair(k=4))
-    dtype = draw(st.sampled_from(DTYPES))
-    ref_idx = draw(st.integers(1, 6))
+    dtype = draw(st.sampled_from(DTYPES + ["bool"]))
+    # labels: mostly small, sometimes not representable in the array's dtype (then necessarily absent)
+    lab = st.one_of(st.integers(1, 7), st.integers(1, 7), st.integers(1, 7), st.sampled_from([255, 256, 257, 259, 300, 65535, 65536, 65539, 2**31, 2**32 + 1]))
+    ref_idx = draw(lab)
     if draw(st.booleans()):
-        pred_idx = draw(st.integers(1, 7))
+        pred_idx = draw(lab)
     else:
-        pred_idx = draw(st.lists(st.integers(1, 7), min_size=1, max_size=4))
+        pred_idx = draw(st.lists(lab, min_size=1, max_size=4))
     return {"kind": "sel", "dtype": dtype, "ref": ref.tolist(), "pred": pred.tolist(), "ref_idx": ref_idx, "pred_idx": pred_idx}
 
 
@@ -123,6 +125,10 @@ def check(case, stats):
     classes = [kind, f"dtype={case['dtype']}", f"ndim={ref.ndim}"]
     if isinstance(pred_idx, list):
         classes.append("pred_list")
+    if ref_idx is not None and np.issubdtype(ref.dtype, np.integer):
+        info = np.iinfo(ref.dtype)
+        if any(not (info.min <= l <= info.max) for l in (pred_idx if isinstance(pred_idx, list) else [pred_idx]) + [ref_idx]):
+            classes.append("label_outside_dtype_range")
     if nU == 0:
         classes.append("undefined:empty_union")
     stats.record(case, nontrivial, classes)
